@@ -127,6 +127,44 @@ example : (do
     let (s, r) ← s.diff a b
     pure (sets (treeOf s.table r))) = some [[1, 2]] := by decide +kernel
 
+/-! ### standalone `Zdd` (own table per value; `remap_nodes` + per-call caches) -/
+
+/-- `remap_nodes(other)` into a clone of `self`'s table: `self`'s refs keep their trees (`Ext`), the
+remapped root denotes `other`'s tree, the combined table is well-formed -/
+theorem zdd_remap_nodes_preserves (self other : ZddS) (hs : self.OK) (ho : other.OK) :
+    ∃ t r, self.remapInto other = some (t, r) ∧ Ext self.table t ∧ TWF t ∧ Valid t r ∧ treeOf t r = other.den :=
+  ZddS.remapInto_spec hs ho
+
+theorem zdd_constructors_refine (v : Nat) (l : List Nat) :
+    (ZddS.empty.OK ∧ ZddS.empty.den = .empty) ∧ (ZddS.base.OK ∧ ZddS.base.den = .base) ∧
+    ((ZddS.singleton v).OK ∧ (ZddS.singleton v).den = Zdd.singleton v) ∧
+    ((ZddS.fromSet l).OK ∧ (ZddS.fromSet l).den = Zdd.fromSet l) :=
+  ⟨ZddS.ok_empty, ZddS.ok_base, ZddS.singleton_spec v, ZddS.fromSet_spec l⟩
+
+theorem zdd_union_refines (self other : ZddS) (hs : self.OK) (ho : other.OK) :
+    ∃ z, self.union other = some z ∧ z.OK ∧ z.den = Zdd.union self.den other.den := ZddS.union_spec hs ho
+
+theorem zdd_intersection_refines (self other : ZddS) (hs : self.OK) (ho : other.OK) :
+    ∃ z, self.inter other = some z ∧ z.OK ∧ z.den = Zdd.inter self.den other.den := ZddS.inter_spec hs ho
+
+theorem zdd_difference_refines (self other : ZddS) (hs : self.OK) (ho : other.OK) :
+    ∃ z, self.diff other = some z ∧ z.OK ∧ z.den = Zdd.diff self.den other.den := ZddS.diff_spec hs ho
+
+theorem zdd_product_refines (self other : ZddS) (hs : self.OK) (ho : other.OK) :
+    ∃ z, self.product other = some z ∧ z.OK ∧ z.den = Zdd.product self.den other.den := ZddS.product_spec hs ho
+
+theorem zdd_pwo_refines (self : ZddS) (hs : self.OK) (var : Nat) :
+    ∃ z, self.pwo var = some z ∧ z.OK ∧ z.den = Zdd.pwo self.den var := ZddS.pwo_spec hs var
+
+theorem zdd_count_contains_refine (self : ZddS) (hs : self.OK) (q : List Nat) :
+    self.count = some (Zdd.count self.den) ∧ self.contains q = some (Zdd.contains self.den (normalize q)) :=
+  ⟨ZddS.count_spec hs, ZddS.contains_spec hs q⟩
+
+/-- every tree denoted by a standalone `Zdd` or an arena handle satisfies the ordering premise
+`Ord 0` of the tree-layer theorems above -/
+theorem denoted_trees_ordered (t : Table) (hw : TWF t) (r : Ref) (hv : Valid t r) : Ord 0 (treeOf t r) :=
+  tree_ord hw hv
+
 end Table
 
 end Varpulis.Props.C06
